@@ -547,7 +547,9 @@ func Run(t *rapid.T, cfg Config) {
 		return
 	}
 	// fresh instance fed the final chain
-	if r.rollbacks > 0 && !r.known && r.otherSide == 0 {
+	// (after a listed finding the instance was resynchronised or the difference
+	// is a representation residue with its own rebuild-clause entry)
+	if r.rollbacks > 0 {
 		fresh := r.k.Rebuild(r.k.Height)
 		got := r.observe()
 		want := &obs{d: fresh.ObserveDPoS(), c: fresh.ObserveCR()}
